@@ -55,6 +55,33 @@ def build_go_tools():
                 raise Internal("go build of %s failed:\n%s" % (d, log))
 
 
+HARNESS_RACE = os.path.join(WORK, "bin", "harness_race")
+
+
+def build_race_harness():
+    """the same harness built with the Go race detector (needs cgo); used only to OBSERVE data races, never to prove their absence"""
+    with Lock("go"):
+        env = dict(GOENV, CGO_ENABLED="1")
+        rc, log = sh(["go", "build", "-race", "-tags", "verif", "-o", HARNESS_RACE, "."], cwd=os.path.join(ROOT, "harness"), env=env)
+        if rc != 0:
+            raise Internal("go build -race of harness failed:\n" + log[-2000:])
+
+
+def race_run(argvs, timeout=900):
+    """run native scenarios under the race detector; returns list of (argv, first report) for runs that reported a race"""
+    build_race_harness()
+    found = []
+    for argv in argvs:
+        p = subprocess.run([HARNESS_RACE] + [str(a) for a in argv], stdout=subprocess.DEVNULL, stderr=subprocess.PIPE, text=True,
+                           timeout=timeout, env=dict(os.environ, GORACE="halt_on_error=1"))
+        if "DATA RACE" in p.stderr:
+            rep = p.stderr[p.stderr.index("WARNING: DATA RACE"):].splitlines()[:40]
+            found.append((" ".join(map(str, argv)), rep))
+        elif p.returncode != 0:
+            raise Internal("race harness %s failed (rc=%d): %s" % (argv, p.returncode, p.stderr[-1500:]))
+    return found
+
+
 def regenerate_gen():
     """tie 4B: regenerate TypVerif/Gen/*.lean from /repo's current working tree.
     Returns {generated file: [extractor errors]} (an empty list = translated completely)."""
